@@ -107,29 +107,35 @@ def _cond_of(root, stmt):
 def r3(ctx):
     repo = ctx.repo
     f = repo.cls("preprocessor", "IncludeNode").find_method("evaluate_for_platform")
-    warn = [c for c in f.calls() if u(c.func) == "log.warning"]
-    ctx.require(len(warn) == 1, "IncludeNode: warning call not found")
-    env = {}
-    for s in walk_no_nested(f.node):
-        if isinstance(s, ast.Assign) and isinstance(s.targets[0], ast.Name):
-            env.setdefault(s.targets[0].id, []).append(u(s.value))
-    names = {n.id for n in ast.walk(warn[0]) if isinstance(n, ast.Name)}
-    deps = set()
-    for n in names:
-        deps.add(n)
-        for v in env.get(n, []):
-            deps.add(v)
-    need = {
-        "file": any("kwargs['filename']" in d for d in deps),
-        "line": any("self.start_line" in d for d in deps),
-        "requested name": "include_path" in names,
-        "quote/angle form": any("is_system_include" in d for d in deps),
-    }
-    for what, ok in need.items():
-        ctx.soft(ok, f"preprocessor:IncludeNode.evaluate_for_platform:message:{what}", f"the include warning does not mention the {what}", f.loc(warn[0]))
-    kinds = [v for v in env.get("kind", [])]
-    ok = kinds == ["'system include' if is_system_include else 'user include'"]
-    ctx.soft(ok, "preprocessor:IncludeNode.evaluate_for_platform:kind", f"kind must be 'system include' for <> and 'user include' for quotes: {kinds}", f.loc())
+    # the text of the not-found warning on every path of the decision table (helpers inlined, locals substituted)
+    from ..spec import call_args, tab, vt
+
+    n_warn = 0
+    for p in tab(f, unroll=1):
+        ws = [e for e in p.effects if e[0] == "call" and e[1] == "log.warning"]
+        if not ws:
+            continue
+        n_warn += 1
+        text = vt(ws[0][2]) if len(ws[0]) > 2 else ""
+        look = [k for k in p.atoms if re.match(r"^[^()]*\.find_include_file\(", k)]
+        sysflag = [v for k, v in p.atoms.items() if vt(k).endswith(".system")]
+        if len(look) != 1 or len(sysflag) != 1:
+            raise AnalysisError(f"IncludeNode.evaluate_for_platform: lookup / form test not recognised on a warning path: {p.describe()[:160]}")
+        lk = vt(look[0])
+        ca = call_args(lk, lk[: lk.index(".find_include_file(")] + ".find_include_file")
+        req = ca[0][0] if ca and ca[0] else None
+        want_kind = "system include" if sysflag[0] else "user include"
+        other_kind = "user include" if sysflag[0] else "system include"
+        need = {
+            "file": "{kwargs['filename']}" in text,
+            "line": "{self.start_line}" in text,
+            "requested name": req is not None and "{" + req + "}" in text,
+            "quote/angle form": want_kind in text and other_kind not in text,
+        }
+        for what, ok in need.items():
+            ctx.check(ok, f"preprocessor:IncludeNode.evaluate_for_platform:message:{what}:system={int(sysflag[0])}", f"the warning for an include that resolves to no file does not state the {what} ({'<> form' if sysflag[0] else 'quote form'}; expected `{want_kind}`, the file, the line and `{req}`): {text[:160]}", f.loc())
+    if n_warn < 2:
+        raise AnalysisError(f"IncludeNode.evaluate_for_platform: {n_warn} warning paths found, expected both forms")
     # directive warning
     g = repo.func("file_parser", "FileParser.insert_directive_node")
     warn = [c for c in g.calls() if u(c.func) == "log.warning"]
@@ -175,7 +181,7 @@ def r4(ctx):
     }
     # the kind strings really used by IncludeNode
     f = repo.cls("preprocessor", "IncludeNode").find_method("evaluate_for_platform")
-    kinds = [n.value for n in ast.walk(f.node) if isinstance(n, ast.Constant) and isinstance(n.value, str) and n.value.endswith(" include")]
+    kinds = [n.value for n in ast.walk(repo.cls("preprocessor", "IncludeNode").node) if isinstance(n, ast.Constant) and isinstance(n.value, str) and n.value.endswith(" include")]
     ctx.check(sorted(kinds) == ["system include", "user include"], "preprocessor:IncludeNode:kind-strings", f"kind strings are {kinds}", f.loc())
     insp = repo.cls("_detail.logging", "MetaWarning").find_method("inspect")
     uses_search = any(u(c.func) == "self.regex.search" for c in insp.calls())
